@@ -420,8 +420,26 @@ func (spt *Tracker) recoverWithPinInfo(ctx context.Context, pi *api.PinInfo) (*a
 	var err error
 	switch pi.Status {
 	case api.TrackerStatusPinError, api.TrackerStatusUnexpectedlyUnpinned:
+		// Re-issue the pin as recorded in the shared state (mode,
+		// allocations, origins...) and not a default recursive pin.
+		var st state.ReadOnly
+		var pin *api.Pin
+		st, err = spt.getState(ctx)
+		if err != nil {
+			logger.Error(err)
+			return spt.Status(ctx, pi.Cid), err
+		}
+		pin, err = st.Get(ctx, pi.Cid)
+		if err == state.ErrNotFound {
+			// no longer in the pinset: nothing to re-pin.
+			return spt.Status(ctx, pi.Cid), nil
+		}
+		if err != nil {
+			logger.Error(err)
+			return spt.Status(ctx, pi.Cid), err
+		}
 		logger.Infof("Restarting pin operation for %s", pi.Cid)
-		err = spt.enqueue(ctx, api.PinCid(pi.Cid), optracker.OperationPin)
+		err = spt.enqueue(ctx, pin, optracker.OperationPin)
 	case api.TrackerStatusUnpinError:
 		logger.Infof("Restarting unpin operation for %s", pi.Cid)
 		err = spt.enqueue(ctx, api.PinCid(pi.Cid), optracker.OperationUnpin)
